@@ -276,6 +276,11 @@ func runC10(c *Ctx) {
 
 	// "undecodable AUTH_SYS bodies are denied": a length that wraps round in the credential decoder makes an
 	// undecodable body decode (borrowed from C13, restricted to what ParseAuthSysCredential reaches)
+	runC10SquashKept(c, P)
+	runShortIsError(c, P)
+	if ent0, err0 := p.entrySet(); err0 == nil {
+		runAuthCtxFresh(c, P, ent0.ConnLoop)
+	}
 	if pa := p.Fn("ParseAuthSysCredential"); pa != nil {
 		scope := p.reachableFrom([]*ssa.Function{pa})
 		noWrapScope = func(fn *ssa.Function) bool { return scope[rootFn(fn)] }
